@@ -313,6 +313,12 @@ fn main() {
             cases::write_lines(&out, &lines);
             println!("cases {} parallel_feature {}", lines.len(), cfg!(feature = "parallel"));
         }
+        Some("trace-xform") => {
+            let inputs = cases::resolve_inputs(&get("inputs", "gen:100"), seed);
+            let lines: Vec<_> = inputs.par_iter().flat_map(|i| vec![cases::xform_case(i, "plain"), cases::xform_case(i, "gc"), cases::xform_case(i, "edited")]).collect();
+            cases::write_lines(&out, &lines);
+            println!("cases {}", lines.len());
+        }
         Some("digests") => {
             // one line per input: id and digest of  parse ; emit  with the default switches (separate process per call)
             let inputs = cases::resolve_inputs(&get("inputs", "gen:100"), seed);
